@@ -508,12 +508,15 @@ class IntegerFieldFormat(AbstractFieldFormat):
             return result
 
         limit = None
+        digits = None
         if self.valid_range is not None:
             lower_limit = self.valid_range.lower_limit
             upper_limit = self.valid_range.upper_limit
             if (lower_limit is not None) and (upper_limit is not None):
                 limit = max(sign_adjusted_limit(lower_limit), sign_adjusted_limit(upper_limit))
-        return "int", limit
+                # Number of decimal digits needed for dialects that have to resort to a decimal type.
+                digits = max(len(str(abs(lower_limit))), len(str(abs(upper_limit))))
+        return "int", limit, digits
 
     def validated_value(self, value):
         assert value
